@@ -1,4 +1,183 @@
-import Gpc.Model.Printf
+import Gpc.Proofs.Printf
+/-!
+# C09 — formatted output equals the C standard's
+
+`Spec/Printf.lean` is the specification (C11 7.21.6.1) with exact arithmetic; `Model/Printf.lean`
+models the library's scanner, writers and padding.  Theorems here: laws of the specification, and
+that the model of the formatter produces the specification's text for every format made of
+`c s d i o u x X p %` conversions, every argument and every destination capacity.  Floating point
+conversions: the text is the specification's sign and padding around the digits spelled by the
+plan of output steps; the digit generation (Ryu) itself is tied by the correspondence run.
+-/
 namespace Gpc.Printf
-theorem placeholder_c09 : True := trivial
+open Gpc.PF (PF Agrees)
+
+/-! ## laws of the specification -/
+
+/-- value of a digit character -/
+def digitVal (b : UInt8) : Nat :=
+  if b.toNat ≤ 57 then b.toNat - 48 else if b.toNat ≤ 70 then b.toNat - 55 else b.toNat - 87
+
+def ofDigits (base : Nat) (ds : Bytes) : Nat := ds.foldl (fun a b => a * base + digitVal b) 0
+
+theorem digitVal_digitChar (upper : Bool) (d : Nat) (h : d < 16) : digitVal (digitChar upper d) = d := by
+  have : d = 0 ∨ d = 1 ∨ d = 2 ∨ d = 3 ∨ d = 4 ∨ d = 5 ∨ d = 6 ∨ d = 7 ∨ d = 8 ∨ d = 9 ∨ d = 10 ∨ d = 11 ∨ d = 12 ∨
+      d = 13 ∨ d = 14 ∨ d = 15 := by omega
+  rcases this with h | h | h | h | h | h | h | h | h | h | h | h | h | h | h | h <;> subst h <;> cases upper <;> decide
+
+/-- **integers print as their positional notation**: reading the digits back gives the value, in
+every base from 2 to 16 -/
+theorem natDigits_value (base : Nat) (upper : Bool) (hb : 2 ≤ base) (hb16 : base ≤ 16) :
+    ∀ x, ofDigits base (natDigits base upper x) = x := by
+  intro x
+  induction x using Nat.strongRecOn with
+  | _ x ih =>
+    rw [natDigits]
+    split
+    · rename_i h
+      have hx : x < base := by omega
+      simp [ofDigits, digitVal_digitChar upper x (by omega)]
+    · rename_i h
+      have hge : base ≤ x := by omega
+      have hlt : x / base < x := Nat.div_lt_self (by omega) (by omega)
+      have := ih (x / base) hlt
+      unfold ofDigits at this ⊢
+      rw [List.foldl_append, this]
+      simp only [List.foldl_cons, List.foldl_nil]
+      rw [digitVal_digitChar upper (x % base) (by have := Nat.mod_lt x (by omega : base > 0); omega)]
+      rw [Nat.mul_comm]; exact Nat.div_add_mod x base
+
+/-- ... without a leading zero -/
+theorem natDigits_no_leading_zero (base : Nat) (upper : Bool) (hb : 2 ≤ base) (hb16 : base ≤ 16) (x : Nat) (hx : 0 < x) :
+    (natDigits base upper x).head? ≠ some 48 := natDigits_head base upper hb hb16 x hx
+
+/-- **rounding is to nearest, ties to even**, on the exact quotient: `|q - num/den| ≤ 1/2`, and a tie
+gives an even `q` -/
+theorem roundDiv_nearest_even (num den : Nat) (hd : 0 < den) :
+    2 * (roundDiv num den * den) ≤ 2 * num + den ∧ 2 * num ≤ 2 * (roundDiv num den * den) + den ∧
+    ((2 * (roundDiv num den * den) = 2 * num + den ∨ 2 * num = 2 * (roundDiv num den * den) + den) →
+      roundDiv num den % 2 = 0) := by
+  unfold roundDiv
+  simp only
+  have hdm := Nat.div_add_mod num den
+  have hr := Nat.mod_lt num hd
+  generalize hq : num / den = q at *
+  generalize hrr : num % den = r at *
+  have hmul : q * den = den * q := Nat.mul_comm _ _
+  split
+  · rename_i h
+    have h1 : (q + 1) * den = den * q + den := by rw [Nat.add_mul, hmul]; omega
+    rw [h1]
+    refine ⟨by omega, by omega, fun ht => ?_⟩
+    rcases h with h | h
+    · omega
+    · omega
+  · rename_i h
+    rw [hmul]
+    refine ⟨by omega, by omega, fun ht => ?_⟩
+    have : ¬ (2 * r > den) ∧ ¬ (2 * r = den ∧ q % 2 = 1) := by
+      constructor
+      · intro hh; exact h (Or.inl hh)
+      · intro hh; exact h (Or.inr hh)
+    omega
+
+/-- the padding rule: the result has at least the field width, and exactly `pre ++ body` inside -/
+theorem padField_length (f : Flags) (w : Nat) (pre body : Bytes) (z : Bool) :
+    (padField f w pre body z).length = max w (pre.length + body.length) := by
+  unfold padField
+  simp only
+  split
+  · simp; omega
+  · split
+    · simp; omega
+    · split <;> simp <;> omega
+
+/-! ## the formatter meets the specification -/
+
+/-- the per-conversion text for formats without floating point conversions -/
+def convTextNF (s : Spec) : Option Arg → Option Bytes
+  | some (.dbl _) => none
+  | a => convText floatModelText s a
+
+theorem convTextNF_spec (s : Spec) (a : Option Arg) (t : Bytes) (h : convTextNF s a = some t) : specConv s a = some t := by
+  cases a with
+  | none =>
+    simp only [convTextNF, convText] at h
+    split at h
+    · rename_i hc; cases h; simp [specConv, hc.1]
+    · cases h
+  | some a =>
+    cases a with
+    | dbl bits => simp [convTextNF] at h
+    | str str => simpa [convTextNF, convText, specConv] using h
+    | int raw =>
+      simp only [convTextNF, convText] at h
+      simp only [specConv]
+      split at h
+      · split at h
+        · exact h
+        · cases h
+      · exact h
+
+theorem convTextNF_model (s : Spec) (a : Option Arg) (t : Bytes) (h : convTextNF s a = some t) :
+    convText floatModelText s a = some t := by
+  cases a with
+  | none => exact h
+  | some a => cases a with
+    | dbl bits => simp [convTextNF] at h
+    | str str => exact h
+    | int raw => exact h
+
+/-- **C09, integer / character / string / pointer conversions.**  For every format built from the
+conversions `c s d i o u x X p %` (any flags, width, precision, `*`, length modifier; `0` not used
+with `c`/`p`, no precision on `p`), every argument list and every destination: the text `out` the
+model of the formatter produces is the specification's text, the return value is its length, and a
+destination that is large enough holds exactly that text. -/
+theorem formatter_meets_spec (fmt : Bytes) (args : List Arg) (out dest : Bytes)
+    (hg : genFormat convTextNF (fmt.length + 1) fmt args = some out) :
+    specFormat (fmt.length + 1) fmt args = some out ∧
+    ∃ p, vsnprintf (fmt.length + 1) { data := dest, length := 0 } fmt args = some (some p) ∧
+      p.length = out.length ∧ (out.length ≤ dest.length → p.data.take out.length = out) := by
+  refine ⟨genFormat_mono _ _ convTextNF_spec _ _ _ _ hg, ?_⟩
+  have hm := genFormat_mono _ _ convTextNF_model _ _ _ _ hg
+  have h0 : Agrees ({ data := dest, length := 0 } : PF) [] := ⟨rfl, fun i _ hi => by simp at hi⟩
+  obtain ⟨p, e, c, a⟩ := vsnprintf_ok (fmt.length + 1) _ [] out fmt args h0 hm
+  simp only [List.nil_append] at a
+  refine ⟨p, e, a.1, fun hle => ?_⟩
+  apply List.ext_getElem?
+  intro i
+  rw [List.getElem?_take]
+  have hc : p.cap = dest.length := c
+  split
+  · rename_i hi; exact a.2 i (by omega) hi
+  · rename_i hi; symm; exact List.getElem?_eq_none (by omega)
+
+/-- **C09, floating point conversions (partial).**  The model writes the specification's sign and
+field padding around the digit text of its plan; with the digit text equal to the specification's
+(`h`, which the correspondence run checks on every case, and which is where the Ryu digit generation
+of the real code enters), the conversion's text is the specification's. -/
+theorem float_text_partial (s : Spec) (bits : Nat)
+    (h : (floatParts s bits).2.2 = false → PF.planText (bodyPlan (floatParts s bits).2.1) = (floatParts s bits).2.1) :
+    floatModelText s bits = fmtFloat s bits := by
+  unfold floatModelText fmtFloat
+  cases hsp : (floatParts s bits).2.2 with
+  | true => simp [hsp, PF.planText, PF.Emit.text]
+  | false => simp [hsp, h hsp]
+
+/-! ## non-vacuity -/
+
+example : genFormat convTextNF 12 [37, 43, 46, 51, 100, 32, 37, 35, 111, 32, 37, 99] [.int 7, .int 8, .int 65] =
+    some [43, 48, 48, 55, 32, 48, 49, 48, 32, 65] := by   -- "%+.3d %#o %c" 7 8 'A' = "+007 010 A"
+  simp [genFormat, splitLiteral, scanSpec, scanFlags, isDigit, scanNat, scanLen, resolve, argFits, convTextNF, convText,
+    formatOne, fmtSigned, fmtUnsigned, signedArg, unsignedArg, LenMod.bits, signBytes, precDigits, padField, natDigits,
+    digitChar, isFloatConv]
+
+-- the most negative value and zero with precision zero
+example : fmtSigned { conv := 'd', len := .ll } (2 ^ 63) = ascii "-9223372036854775808" := by
+  simp [fmtSigned, signedArg, LenMod.bits, signBytes, precDigits, padField, natDigits, digitChar, ascii]
+example : fmtSigned { conv := 'd', prec := some 0, width := 3 } 0 = [32, 32, 32] := by
+  simp [fmtSigned, signedArg, LenMod.bits, signBytes, precDigits, padField]
+-- 2.5 rounds to even, 3.5 up
+example : roundDiv 5 2 = 2 ∧ roundDiv 7 2 = 4 := by decide
+
 end Gpc.Printf
